@@ -407,21 +407,25 @@ Section Strings.
 
   (* instantiating the `substr` member of ops{str = s} with start = a, end = b:
      the result is the ops-wrapped substring *)
-  Lemma substr_copies c s e1 e2 a b' :
+  Definition subflds (s : bytes) (a b' : Z) : list (bytes * value) :=
+    [(b "str", VStr s); (b "start", VInt a); (b "end", VInt b'); (b "pkg", pkgf (T8 s))].
+  (* generic in the override list: whatever fields are given, as long as the merged parameters are
+     str = s, start = a, end = b *)
+  Lemma substr_copies_gen c s fs ovs a b' :
     fits (Z.of_nat (List.length s)) ->
-    evals (with_self fo c (Some (Vsubstr s))) e1 (VInt a) ->
-    evals (with_self fo c (Some (Vsubstr s))) e2 (VInt b') ->
-    copies c (Vsubstr s) [(b "start", e1); (b "end", e2)] (ops_tuple (pick a b' 0 (chars s))).
+    Std_Rules_Imp.evals_fields fo std_imports [] (with_self fo c (Some (Vsubstr s))) fs [] ovs ->
+    merge_fields fo (mod_params fo (Vsubstr s)) ovs = Ok (subflds s a b') ->
+    copies c (Vsubstr s) fs (ops_tuple (pick a b' 0 (chars s))).
   Proof.
-    intros Hfit H1 H2. destruct c as [s0 slf E st ord]. unfold Vsubstr in *.
+    intros Hfit Hfs Hmerge. destruct c as [s0 slf E st ord]. unfold Vsubstr in *.
     pose proof (N_le_bytes s) as HN.
     assert (HfN : fits (N s)).
     { apply (fits_between _ 0 (Z.of_nat (List.length s))); [apply fits_0|exact Hfit|unfold N in *; lia]. }
     set (flds := [(b "str", VStr s); (b "start", VInt a); (b "end", VInt b'); (b "pkg", pkgf (T8 s));
                   (b "this", VModule [(b "str", VStr s); (b "start", VInt 0); (b "end", VInt (N s)); (b "pkg", pkgf (T8 s))] substr_out substr_body)]).
     eapply copies_module'.
-    - eapply evf_cons; [exact H1|reflexivity|]. eapply evf_cons; [exact H2|reflexivity|iv1].
-    - reflexivity.
+    - exact Hfs.
+    - exact Hmerge.
     - reflexivity.
     - unfold substr_body.
       eapply execs_let'; [|reflexivity|reflexivity|].
@@ -456,6 +460,17 @@ Section Strings.
              destruct (_ && _); [reflexivity|rewrite app_nil_r; reflexivity].
         * rewrite HI in Hev. eapply ev_dot_sym; [exact Hev|reflexivity].
     - unfold substr_out. iv1.
+  Qed.
+
+  Lemma substr_copies c s e1 e2 a b' :
+    fits (Z.of_nat (List.length s)) ->
+    evals (with_self fo c (Some (Vsubstr s))) e1 (VInt a) ->
+    evals (with_self fo c (Some (Vsubstr s))) e2 (VInt b') ->
+    copies c (Vsubstr s) [(b "start", e1); (b "end", e2)] (ops_tuple (pick a b' 0 (chars s))).
+  Proof.
+    intros Hfit H1 H2.
+    eapply substr_copies_gen with (ovs := [(b "start", VInt a); (b "end", VInt b')]); [exact Hfit| |reflexivity].
+    eapply evf_cons; [exact H1|reflexivity|]. eapply evf_cons; [exact H2|reflexivity|iv1].
   Qed.
 
   (* wrap(arg).substr{start = arg2, end = arg3}.str *)
